@@ -1,6 +1,6 @@
 """C06 - time_slice keeps exactly the presence inside the window, in a new graph."""
 import gen
-from props.base import PropBase, tup
+from props.base import PropBase, bigio_case, with_bigio, tup
 from props.graphcommon import state_case, known_nodes, has_probes, Truth
 from props.suboracles import o_canon, o_snap, o_stream
 from props.c02 import expected as q_expected
@@ -14,6 +14,7 @@ def obs_block(r, ns, ts, directed):
             [('inter', r, 'out_interactions' if directed else 'interactions', None, None)])
 
 
+@with_bigio
 class C06(PropBase):
     id = 'C06'
     obs = {'slice', 'nodes', 'meta', 'has', 'ids', 'stream', 'ips', 'inter', 'nnodes', 'streamchk', 'add', 'nbrs', 'deg', 'size', 'nint', 'hasnode'}
@@ -28,6 +29,8 @@ class C06(PropBase):
                 ('' if tier == 'thorough' else ' (every 5th history)')]
 
     def exhaustive_cases(self, tier):
+        # runs of 150 000 instants at epoch-size instants (implementation side only, interval arithmetic at the boundaries)
+        yield bigio_case(('span-slice', False, 150000, 1700000000000), ('span-slice', True, 150000, 2 ** 31 - 9))
         step = 1 if tier == 'thorough' else 5
         wins = [(a, b) for a in range(-1, 8) for b in range(a, 8)] + [(a, None) for a in range(-1, 8)]
         for directed in (False, True):
